@@ -68,6 +68,10 @@ func execC02(p *drv.Plan) *Out {
 		},
 	}
 	r1 := drv.RunPlan(p, p.Config, hooks)
+	if r1.Vio == nil && r1.Foreign != nil && r1.Foreign.Oracle == "C10.import-hash" {
+		// "the same ... after export/import" is part of this statement too
+		r1.Vio, r1.Foreign = relabel(r1.Foreign, "C02", "expimp"), nil
+	}
 	if r1.Vio != nil && r1.Vio.Prop == "C02" {
 		// read-free twin: same writes, no read-only calls at all
 		q := p.Clone()
